@@ -225,7 +225,8 @@ def run_prop(case):
     for ax in a.axes:
         ax.attrs.update(_copy.deepcopy(axattrs))
     b = core.build(case["b"], attrs={"units": "b-units", "only_b": 1})
-    ctx = ops.Ctx(da, a, b, case["k"])
+    # (building the context flattens `a`: a library call on an array that carries the generated metadata)
+    ctx = lib(lambda: ops.Ctx(da, a, b, case["k"]), what="flatten(dims[:2], insert=0) attrs=%s" % core.jsonable(attrs), sig={"op": "flatten", "rule": "keeps"})
     ctx.f.attrs.update(_copy.deepcopy(attrs))
     sub = []
     cl = set()
